@@ -328,15 +328,10 @@ def gaps_fn(k, s, signed=False):
         p = kw["p"]
         g = la.gaps_location()
         G = blocks_of(g)
-        # gaps are measured between NON-EMPTY blocks
+        # gaps are measured between NON-EMPTY blocks: p lies at or after some non-empty block's start, before some non-empty block's end, in no block
+        # (valid for nested / overlapping layouts too: the gaps are span minus covered positions)
         ne = [a[0] < a[1] for a in A]
-        first_ne = A[-1][0]
-        for a, n in reversed(list(zip(A[:-1], ne[:-1]))):
-            first_ne = ITE(n, a[0], first_ne)
-        last_ne = A[0][1]
-        for a, n in list(zip(A[1:], ne[1:])):
-            last_ne = ITE(n, a[1], last_ne)
-        want = AND(OR(*ne), first_ne <= p, p < last_ne, NOT(member(p, A)))
+        want = AND(OR(*[AND(n, a[0] <= p) for a, n in zip(A, ne)]), OR(*[AND(n, p < a[1]) for a, n in zip(A, ne)]), NOT(member(p, A)))
         conds = [mult(p, G) == ITE(want, 1, 0)]
         gl = la.gap_list()
         conds.append(len(gl) == len(G) if not G else True)
@@ -602,10 +597,10 @@ def obligations(tier):
         out.append(Obl("empty_identities_%s" % sn, empty_identities_fn(2, s), _unary_params(2, {}), lambda **kw: layout_pre(2, kw),
                        budget=60, cost=2, desc="EmptyLocation identities: absorbing for intersection/minus, never overlaps, normalisers return it",
                        bounds="2-block operand", examples=[dict(s0=1, l0=2, l1=2, g1=1)]))
-    if not quick:
-        # overlapping (signed-gap) layouts for the normalisers
+    if True:
+        # overlapping (signed-gap) layouts for the normalisers and the gap computation (k=2 in the quick tier, k=3 in thorough)
         for s in (PLUS, MINUS):
-            for k in (2, 3):
+            for k in ((2,) if quick else (2, 3)):
                 def pre(k=k, **kw):
                     if not kw["s0"] >= 0:
                         return False
@@ -625,6 +620,9 @@ def obligations(tier):
                                    _unary_params(k, {"p": int}), pre, budget=600, cost=60,
                                    desc="%s on overlapping/nested layouts (signed gaps)" % mode,
                                    bounds="k=%d blocks, signed gaps, unbounded ints" % k, examples=[ex]))
+                out.append(Obl("gaps_overlapping_k%d_%s" % (k, sname(s)), gaps_fn(k, s, signed=True), _unary_params(k, {"p": int}), pre, budget=600, cost=30,
+                               desc="gaps_location on overlapping/nested layouts: p in gaps <=> inside the span of the non-empty blocks and covered by no block",
+                               bounds="k=%d blocks, signed gaps, unbounded ints" % k, examples=[ex, dict(ex, l0=40, l1=3, g1=-30, p=20)]))
     for o in out:
         if o.kind == "crosshair":
             o.fn = operands_unchanged(o.fn)
